@@ -1011,3 +1011,25 @@ def check_stats_registration(run, ctx):
 def check_memory_store_selected(run, ctx):
     n, fams = check_wrapper_flow(run, ctx, rules=('C05',))
     return n
+
+
+def check_wrapper_no_direct_stats(run, ctx, rule='C15-W2'):
+    """the lookup records its own hit / miss; a wrapper that records as well counts one lookup twice"""
+    from .effects import classify as _cls
+    n = 0
+    for w in wrappers(ctx):
+        if w.body is None:
+            continue
+        n += 1
+        hits = []
+        for x in [w.body] + [c for c in w.body.crate.descendants(w.body) if ctx.role(c) and ctx.role(c).endswith(':wrapper')]:
+            for b, t in x.calls():
+                if _cls(t) in ('hit', 'miss'):
+                    hits.append((x, b, _cls(t)))
+        if hits:
+            x, b, k = hits[0]
+            run.bad(rule, _fx_key(w, 'wrapper-records-%s' % k), 'the generated wrapper of %s calls record_%s itself (%s): the lookup has already been counted, so hits + misses exceeds the '
+                    'number of lookups' % (w.path, k, x.loc(b)), site=w.path, oracle='exactly one record per lookup, made by the cache')
+        else:
+            run.ok(rule, w.path, 'no statistics call in the wrapper')
+    return n
